@@ -558,3 +558,28 @@ def _(c):
     c.ensures("all([ (list(self.k)[i] >= list(self.k)[i+1]) if reverse else (list(self.k)[i] <= list(self.k)[i+1]) for i in range(len(list(self.k)) - 1)])", "sorted-by-the-typed-column")
     c.ensures("len(list(self.k)) == len(old(list(self.k))) and all([count_row(list(zip(list(self.k), list(self.v))), r) == count_row(old(list(zip(list(self.k), list(self.v)))), r) for r in old(list(zip(list(self.k), list(self.v))))])", "multiset-of-rows-preserved")
     c.no_raise()
+
+
+# ---- a float appended to an integer-typed column: the rows already stored keep their exact integers (no detour of the column through
+#      float64, which holds integers exactly only up to 2**53) ------------------------------------------------------------------------------
+@contract(RC + ".append", "C20", name="RowCollector.append[float-into-an-integer-typed-column]")
+def _(c):
+    import numpy as np
+    c.bound = "collectors in array mode with 1..2 stored rows; int64 key column holding symbolic integers of the whole int64 range; the appended key is a float"
+    for n in (1, 2):
+        for form in ("list", "dict"):
+            def pre(b, n=n, form=form):
+                info = np.iinfo("int64")
+                rc = b.new(RC, b.dict({"k": b.dict(dict(dtype=b.const(np.int64))), "v": b.dict(dict(dtype=b.const(float)))}), array=True)
+                for i in range(n):
+                    k = b.int(f"k{i}")
+                    b.assume_rel(k, ">=", int(info.min)); b.assume_rel(k, "<=", int(info.max))
+                    b.call(b.getattr(rc, "append"), b.list([k, b.real(f"v{i}")]))
+                kf, vf = b.real("kf"), b.real("vf")
+                b.assume_rel(kf, ">=", -2.0 ** 62); b.assume_rel(kf, "<=", 2.0 ** 62)
+                row = b.list([kf, vf]) if form == "list" else b.dict({"k": kf, "v": vf})
+                return dict(args=[rc, row], env=dict(n=n, vf=vf))
+            c.scenario(f"{form}-row-after-{n}", pre)
+    c.ensures("list(self.k)[:n] == old(list(self.k)) and list(self.v)[:n] == old(list(self.v))", "rows-stored-before-are-preserved-exactly")
+    c.ensures("len(list(self.k)) == n + 1 and len(list(self.v)) == n + 1 and list(self.v)[n] == vf", "one-row-more")
+    c.no_raise()
